@@ -24,6 +24,7 @@ pub fn run_miri(seed: u64, out: &mut ExtraResult) {
             .args(["+nightly", "miri", "run", "--offline", "--", &variant.to_string()])
             .current_dir(&miri_dir)
             .env("MIRIFLAGS", &flags)
+            .env("CARGO_TARGET_DIR", format!("{dir}/target/miri"))
             .env("CARGO_NET_OFFLINE", "true")
             .output();
         let res = match res {
@@ -60,7 +61,7 @@ pub fn run_miri(seed: u64, out: &mut ExtraResult) {
                 Some(s) => format!("-Zmiri-seed={s}"),
                 None => format!("-Zmiri-many-seeds={lo}..{hi}"),
             };
-            let cmd = format!("cd {miri_dir} && MIRIFLAGS='{seed_flag} -Zmiri-preemption-rate=0.1' cargo +nightly miri run --offline -- {variant}; test $? -eq 0");
+            let cmd = format!("cd {miri_dir} && CARGO_TARGET_DIR={dir}/target/miri MIRIFLAGS='{seed_flag} -Zmiri-preemption-rate=0.1' cargo +nightly miri run --offline -- {variant}; test $? -eq 0");
             out.violations.push((
                 Violation::new("C18/miri", class, first_err.clone()),
                 json!({"format": 1, "property": "C18", "engine": "miri", "miri_seed": failing_seed, "variant": variant, "cmd": cmd,
